@@ -73,6 +73,16 @@ fn main() {
             let np = sim.num_pending();
             let mut choices: Vec<Vec<bool>> = vec![vec![false; np], vec![true; np]];
             for _ in 0..(if thorough { 3 } else { 1 }) { choices.push((0..np).map(|_| rng.chance(1, 2)).collect()); }
+            // targeted outcomes: only the renames survive / only the unlinks survive / everything but the creations
+            let kinds = sim.pending_kinds();
+            if kinds.contains(&'A') {
+                choices.push(kinds.iter().map(|k| *k == 'A').collect());
+                choices.push(kinds.iter().map(|k| *k != 'L').collect());
+            }
+            if kinds.contains(&'U') { choices.push(kinds.iter().map(|k| *k == 'U').collect()); }
+            // in-order crashes: a prefix of the pending operations survives
+            if np > 1 { let cut = 1 + rng.below(np as u64 - 1) as usize; choices.push((0..np).map(|i| i < cut).collect()); }
+            choices.sort();
             choices.dedup();
             let returned: Vec<usize> = res.commits.iter().enumerate().filter(|(_, c)| c.ret_seq <= k).map(|(i, _)| i).collect();
             let started: Vec<usize> = res.commits.iter().enumerate().filter(|(_, c)| c.call_seq <= k).map(|(i, _)| i).collect();
